@@ -1,6 +1,7 @@
 import Hive.Model.SyncMutex
 import Hive.Model.SyncMutexDag
 import Hive.Model.SyncMutexWait
+import Hive.Model.SyncMutexComp
 import Hive.Base.Proto
 /-!
 # C17 driver: the models as executable oracles for traces recorded from the implementation
@@ -10,7 +11,9 @@ import Hive.Base.Proto
   the set of quiescent configurations of the monitor protocol (`Hive.SyncMutex.sys`, explored over **all**
   interleavings and all choices of `Signal`) that agree with everything observed so far and answers `ok`
   while that set is non-empty.
-* `dag N E` / `d T op obs…` — the same for `DAGMutex` against `Hive.SyncMutex.Dag.sys`.
+* `dag N E` / `d T op obs…` — the same for `DAGMutex` against `Hive.SyncMutex.Dag.sys` (abstract per-entity
+  locks); `dagc N E` selects `Hive.SyncMutex.Comp.sys` instead, the registry composed of StarvingMutex monitors
+  (all micro-step interleavings).
 * `wm N v kind` / `w T op | obs…` — the same for the Counter/Stack monitor against `Hive.SyncMutex.Wait.sys`.
 * `tr ev…` — exclusion predicate (`Excl`, the one `C17_exclusion`/`C17_dag_exclusion` are about) evaluated
   on a grant/release trace recorded under stress.
@@ -89,8 +92,12 @@ def dagStatus (t : Dag.DTh) : Char :=
 
 def joinNat (l : List Nat) : String := ",".intercalate (l.map toString)
 
+def bits (l : List Bool) : String := String.ofList (l.map (fun b => if b then '1' else '0'))
+
+/-- statuses, consumer counts, and which entities have a mutex in the registry -/
 def dagObs (nEnt : Nat) (c : Cfg Dag.DSh Dag.DTh) : String :=
-  String.ofList (c.2.map dagStatus) ++ " " ++ joinNat ((List.range nEnt).map (fun x => (c.1 x).cnt))
+  String.ofList (c.2.map dagStatus) ++ " " ++ joinNat ((List.range nEnt).map (fun x => (c.1 x).cnt)) ++ " "
+    ++ bits ((List.range nEnt).map (fun x => decide (0 < (c.1 x).cnt)))
 
 def parseNats (s : String) : Option (List Nat) :=
   if s == "-" then some [] else (s.splitOn ",").mapM (·.toNat?)
@@ -105,6 +112,30 @@ def parseDOp : String → String → Option Dag.DOp
 def dagArrive (c : Cfg Dag.DSh Dag.DTh) (i : Nat) (op : Dag.DOp) : Option (Cfg Dag.DSh Dag.DTh) :=
   match c.2[i]? with
   | some t => if t.pc = .idle ∧ t.script = [] then some (c.1, c.2.set i { t with script := [op] }) else none
+  | none => none
+
+/-! ## DAGMutex arrivals against the composed model -/
+
+def compKey (nEnt : Nat) (c : Cfg Comp.CSh Comp.CTh) :=
+  let objs := List.range c.1.next
+  let ents := List.range nEnt
+  ((ents.map c.1.ent, ents.map c.1.cnt, c.1.next, c.1.dm, objs.map c.1.heap),
+    c.2.map fun t => ((t.ctl, t.iop, t.curEnt, t.cur, t.ipc), (objs.map t.rd, objs.map t.wr, t.held, ents.map t.hobj, t.script)))
+
+def compStatus (t : Comp.CTh) : Char :=
+  match t.ctl with
+  | .idle => 'i'
+  | .dead => 'd'
+  | .inner _ => if t.ipc = .dead then 'd' else if t.ipc = .rlP ∨ t.ipc = .lkP then 'b' else '?'
+  | _ => '?'
+
+def compObs (nEnt : Nat) (c : Cfg Comp.CSh Comp.CTh) : String :=
+  String.ofList (c.2.map compStatus) ++ " " ++ joinNat ((List.range nEnt).map c.1.cnt) ++ " "
+    ++ bits ((List.range nEnt).map (fun x => (c.1.ent x).isSome))
+
+def compArrive (c : Cfg Comp.CSh Comp.CTh) (i : Nat) (op : Dag.DOp) : Option (Cfg Comp.CSh Comp.CTh) :=
+  match c.2[i]? with
+  | some t => if t.ctl = .idle ∧ t.script = [] then some (c.1, c.2.set i { t with script := [op] }) else none
   | none => none
 
 /-! ## Counter/Stack monitor arrivals -/
@@ -228,6 +259,7 @@ inductive St
   | none
   | sm (cs : List (Cfg Mx Th))
   | dag (nEnt : Nat) (cs : List (Cfg Dag.DSh Dag.DTh))
+  | dagc (nEnt : Nat) (cs : List (Cfg Comp.CSh Comp.CTh))
   | wm (cs : List (Cfg Wait.Mon Wait.WTh))
 
 def dedupBy {α κ : Type} [BEq κ] (key : α → κ) : List α → List κ → List α
@@ -270,6 +302,20 @@ def seqDag (nEnt : Nat) : Cfg Dag.DSh Dag.DTh → List Dag.DOp → List String
         | _ => ["block"]
       | _ => ["nondet"]
 
+def seqComp (nEnt : Nat) : Cfg Comp.CSh Comp.CTh → List Dag.DOp → List String
+  | _, [] => []
+  | c, op :: ops =>
+    match compArrive c 0 op with
+    | none => ["stuck"]
+    | some c1 =>
+      match (quiescentFrom Comp.sys (compKey nEnt) [c1]).1 with
+      | [c2] =>
+        match c2.2.map compStatus with
+        | ['i'] => "ok" :: seqComp nEnt c2 ops
+        | ['d'] => ["panic"]
+        | _ => ["block"]
+      | _ => ["nondet"]
+
 def parseDOps : List String → Option (List Dag.DOp)
   | [] => some []
   | tok :: rest =>
@@ -295,8 +341,17 @@ def stepLine (st : St) (toks : List String) : St × String :=
     match n.toNat?, e.toNat? with
     | some n, some e => (.dag e [((fun _ => Dag.Ent.zero), List.replicate n (Dag.DTh.new []))], "ok")
     | _, _ => (st, "bad-op")
+  | ["dagc", n, e] =>
+    match n.toNat?, e.toNat? with
+    | some n, some e => (.dagc e [(Comp.CSh.init, List.replicate n (Comp.CTh.new []))], "ok")
+    | _, _ => (st, "bad-op")
   | "d" :: i :: op :: arg :: obs =>
     match st, i.toNat?, parseDOp op arg with
+    | .dagc e cs, some i, some op =>
+      let starts := cs.filterMap (fun c => compArrive c i op)
+      let (outs, complete) := quiescentFrom Comp.sys (compKey e) starts
+      let (ok, ans) := answer (compObs e) (" ".intercalate obs) (dedupBy (compKey e) outs []) complete
+      (.dagc e ok, ans)
     | .dag e cs, some i, some op =>
       let starts := cs.filterMap (fun c => dagArrive c i op)
       let (outs, complete) := quiescentFrom Dag.sys (dagKey e) starts
@@ -332,6 +387,10 @@ def stepLine (st : St) (toks : List String) : St × String :=
   | "seq" :: "dag" :: ops =>
     match parseDOps ops with
     | some ops => (st, " ".intercalate (seqDag 8 ((fun _ => Dag.Ent.zero), [Dag.DTh.new []]) ops))
+    | none => (st, "bad-op")
+  | "seq" :: "dagc" :: ops =>
+    match parseDOps ops with
+    | some ops => (st, " ".intercalate (seqComp 8 (Comp.CSh.init, [Comp.CTh.new []]) ops))
     | none => (st, "bad-op")
   | "wt" :: v :: evs =>
     match v.toInt?, evs.mapM parseWEv with
